@@ -2570,3 +2570,45 @@ _c02_srv = ServerFamily("C02",
 REGISTRY["C02"] = CompositeFamily("C02", REGISTRY["C02"].parts + [_c02_srv])
 # C01: an operation applied under its request's snapshot is answered as applied, whatever other handlers did meanwhile
 REGISTRY["C01"] = CompositeFamily("C01", REGISTRY["C01"].parts + [SchedFamily("C01")])
+
+
+
+def c08_directed(ctx):
+    """Flush answers OK whenever it removed everything: a Flush of one instance whose group an entry of the other instance
+    still names; a Flush of every instance after an instance was created while the server runs (a Get and a Flush of
+    everything came before, a Get of everything comes after)."""
+    out = []
+    pre = [{"a": "sreset", "nis": ["DEFAULT", "vrf1"], "fwd": True}, {"a": "open", "s": "s1"},
+           _msg("s1", {"k": "params", "red": "SINGLE_PRIMARY", "per": "PRESERVE", "ack": "RIB"}), _msg("s1", {"k": "elec", "id": [0, 1]})]
+    for kind in ("v4", "mpls"):
+        for el in ({"el": "override", "id": [0, 0]}, {"el": "id", "id": [0, 1]}):
+            w = list(pre) + [_msg("s1", {"k": "ops", "ops": [_op(1, "DEFAULT", "ADD", "nh", 1), _op(2, "DEFAULT", "ADD", "nhg", 1, nhs=(1,)), _op(3, "vrf1", "ADD", kind, "k2", g=1, gni="DEFAULT")]}),
+                             {"a": "flushrpc", "r": dict(el, ni="DEFAULT")}, {"a": "get", "g": {"ni": "*", "aft": "ALL"}},
+                             _msg("s1", {"k": "ops", "ops": [_op(4, "DEFAULT", "ADD", "nh", 1), _op(5, "DEFAULT", "ADD", "nhg", 1, nhs=(1,))]}),
+                             {"a": "flushrpc", "r": dict(el, ni="vrf1")}, {"a": "flushrpc", "r": dict(el, ni="*")}, {"a": "get", "g": {"ni": "*", "aft": "ALL"}}]
+            out.append(json.dumps(w))
+    w = list(pre) + [_msg("s1", {"k": "ops", "ops": [_op(1, "DEFAULT", "ADD", "nh", 1)]}),
+                     {"a": "get", "g": {"ni": "*", "aft": "ALL"}}, {"a": "flushrpc", "r": {"ni": "*", "el": "override", "id": [0, 0]}},
+                     {"a": "addni", "ni": "vrf2"},
+                     _msg("s1", {"k": "ops", "ops": [_op(2, "vrf2", "ADD", "nh", 1), _op(3, "vrf2", "ADD", "nhg", 1, nhs=(1,)), _op(4, "vrf2", "ADD", "v4", "k2", g=1), _op(5, "DEFAULT", "ADD", "nh", 2)]}),
+                     {"a": "get", "g": {"ni": "*", "aft": "ALL"}}, {"a": "flushrpc", "r": {"ni": "*", "el": "override", "id": [0, 0]}},
+                     {"a": "get", "g": {"ni": "*", "aft": "ALL"}}, {"a": "get", "g": {"ni": "vrf2", "aft": "ALL"}}]
+    out.append(json.dumps(w))
+    return out
+
+
+def c10_many_abandoned(ctx):
+    """Twelve Gets abandoned one after the other (after 0-3 responses), then complete Gets, writes and a Flush must still be served."""
+    w = [{"a": "sreset", "nis": ["DEFAULT", "vrf1"], "fwd": True}, {"a": "open", "s": "s1"},
+         _msg("s1", {"k": "params", "red": "SINGLE_PRIMARY", "per": "PRESERVE", "ack": "RIB"}), _msg("s1", {"k": "elec", "id": [0, 1]}),
+         _msg("s1", {"k": "ops", "ops": [_nh(1, "DEFAULT", 1), _nh(2, "DEFAULT", 2), _nh(3, "DEFAULT", 3), _nh(4, "vrf1", 1), _nh(5, "vrf1", 2)]})]
+    for k in range(12):
+        w.append({"a": "get", "g": {"ni": ["*", "DEFAULT", "vrf1"][k % 3], "aft": "ALL"}, "failafter": k % 4})
+    w += [{"a": "get", "g": {"ni": "*", "aft": "ALL"}}, _msg("s1", {"k": "ops", "ops": [_nh(10, "DEFAULT", 4), _nh(11, "vrf1", 3)]}),
+          {"a": "get", "g": {"ni": "*", "aft": "nh"}}, {"a": "flushrpc", "r": {"ni": "*", "el": "override", "id": [0, 0]}}, {"a": "get", "g": {"ni": "*", "aft": "ALL"}}]
+    return [json.dumps(w)]
+
+
+_c08_srv.directed = c08_directed
+_c10_old = REGISTRY["C10"].directed
+REGISTRY["C10"].directed = lambda ctx: _c10_old(ctx) + c10_many_abandoned(ctx)
